@@ -7,7 +7,7 @@ import copy
 
 import numpy as np
 
-from .. import world as W
+from .. import seams, world as W
 from ..core import exc_brief, exc_site
 from ..prng import shuffled, weighted
 from ..realise import Mismatch, Names, build_bn, build_mn, factor_to_logical, make_factor, to_np
@@ -85,7 +85,7 @@ def generate(streams, tier):
             ops.append(q)
         else:
             ops.append({"op": k})
-    return {"world": world, "config": cfg, "shared_engine": shared, "ops": ops}
+    return {"world": world, "config": cfg, "shared_engine": shared, "ops": ops, "backend": streams.s("config").choice(seams.BACKENDS)}
 
 
 def gen_query(r, world, ref, allow_virtual):
@@ -194,6 +194,13 @@ def execute(case, ctx):
     ctx.fault("insertion_permute")
     if cfg.get("triangulate"):
         ctx.fault("option_swarm")
+    backend = seams.effective_backend(case.get("backend", "numpy"), [x for f in world_factors(world) for x in f["values"]])
+    seams.set_backend(backend)
+    if backend != "numpy":
+        ctx.fault("backend_config")
+    single = backend.endswith("float32")
+    if single:
+        ctx.probe("dtype_float32")
     model = build_model(case, names)
     try:
         bp = BeliefPropagation(model)
@@ -238,6 +245,8 @@ def execute(case, ctx):
             if kind != "bn":
                 virt = []
             if not q or ref.prob_evidence(ev, virt) <= 1e-12 * max(z, 1e-300):
+                continue
+            if single and (ref.prob_evidence(ev, virt) < 1e-5 * z or any(0 < x < 1e-3 for _, l in virt for x in l)):
                 continue
             in_several = [v for v in ev if sum(1 for c in bp.junction_tree.nodes() if names.L(v) in c) > 1]
             if in_several:
@@ -330,6 +339,10 @@ def check_query(ctx, names, ref, res, q, ev, virt, joint, kind):
 
 def shrink_candidates(case):
     w = case["world"]
+    if case.get("backend", "numpy") != "numpy":
+        c = copy.deepcopy(case)
+        c["backend"] = "numpy"
+        yield c
     if case["shared_engine"]:
         c = copy.deepcopy(case)
         c["shared_engine"] = False
